@@ -87,13 +87,14 @@ def main(pid):
     # step-level conformance of Extract.tla: match_on_tokens events (guarded hook) bind the model's
     # matcher results, TLC recomputes every span and every window length
     sdocs = [d for d in plain if "\x00" not in d][:: (2 if thorough else 5)]
-    sobs = vlib.impl_map("drv_extract", "run_steps", [{"text": d} for d in sdocs])
+    sobs = vlib.impl_map("drv_extract", "run_steps", [{"text": d} for d in sdocs], env={vlib.GUARD: "1"})
     if sobs and all(o.get("hooks") for o in sobs):
         straces = [{"cites": o["cites"]} for o in sobs]
         _, drifts = tlc_judge("Trace_ExtractSteps", "Trace_ExtractSteps.cfg", straces, ev, "steps", chunk=1500)
         for ix, rest in drifts:
             vd.spec_drift("Extract", f"document {sdocs[ix][:90]!r}: {rest[:300]}")
         ev.cov["step_level_citations_recomputed"] = sum(len(o["cites"]) for o in sobs)
+        ev.cov["step_level_calls_raised_with_guard_on"] = sum(1 for o in sobs if o["raised"])
     else:
         ev.cov["step_level_citations_recomputed"] = 0
         ev.cov["step_level_note"] = "hook events unavailable (eyecite._verif missing or guard off): implementation-model layer skipped"
